@@ -215,7 +215,7 @@ func newWorld(cfg Cfg) (*world, *vt.Finding) {
 	if err != nil {
 		return nil, vt.Failf("harness/new", "NewExporter: %v", err)
 	}
-	if err := exp.Start(context.Background(), host); err != nil {
+	if err := xh.StartThenCancel(exp, host); err != nil {
 		return nil, vt.Failf("harness/start", "Start: %v", err)
 	}
 	w.exp = exp
